@@ -171,10 +171,26 @@ class SDict:
     def __repr__(self):
         return "SDict(%s%r%r)" % ((self.base + " + ") if self.base else "", self.sym, self.d)
 
-    def py_truth(self):
+    def whole(self, what):
+        """operations on the dict as a whole (iteration, keys/values/items, len, copy, update from it, truth value) need
+        every key to be known: not with an opaque base, not with entries stored under symbolic keys"""
         if self.base is not None:
-            raise Unsupported("truth of opaque dict")
-        return len(self.d) > 0
+            raise Unsupported("%s of an opaque dict" % what)
+        if self.sym:
+            raise Unsupported("%s of a dict with entries under symbolic keys" % what)
+        return self.d
+
+    def whole(self, what):
+        """operations on the dict as a whole (iteration, keys/values/items, len, copy, update from it, truth value) need
+        every key to be known: not with an opaque base, not with entries stored under symbolic keys"""
+        if self.base is not None:
+            raise Unsupported("%s of an opaque dict" % what)
+        if self.sym:
+            raise Unsupported("%s of a dict with entries under symbolic keys" % what)
+        return self.d
+
+    def py_truth(self):
+        return len(self.whole("truth value")) > 0
 
 
 class MissingLocal(KeyError, Unsupported):
@@ -850,9 +866,7 @@ class Interp:
         if isinstance(it, (tuple, list)):
             return list(it)
         if isinstance(it, SDict):
-            if it.base is not None:
-                raise Unsupported("iteration over opaque dict")
-            return list(it.d.keys())
+            return list(it.whole("iteration").keys())
         if isinstance(it, range):
             return list(it)
         if isinstance(it, str):
